@@ -287,6 +287,7 @@ pub fn generate(seed: u64, k_seeds: usize) -> Sc {
                 kind = 0;
             }
             let near_split = |dd: Date, last: &Option<Date>| last.map(|l| (dd - l).whole_days().abs() <= 1).unwrap_or(false);
+            let mut sold_by: Option<&str> = None;
             match kind {
                 0 | 5 => {
                     // Buy (5 = zero-cost buy: keeps the ACB, creates a tied day)
@@ -333,6 +334,9 @@ pub fn generate(seed: u64, k_seeds: usize) -> Sc {
                     }
                     st.get_mut(a).unwrap().shares = (have - qty).max(0);
                     set_aff(&mut row, a, &mut r);
+                    if !oversell {
+                        sold_by = Some(a);
+                    }
                 }
                 2 => {
                     // Split
@@ -407,6 +411,40 @@ pub fn generate(seed: u64, k_seeds: usize) -> Sc {
                 row[C_MEMO] = (*r.pick(&["note", "drip", "vest", "rebalance to target", "tax loss harvest - see advisor notes", "lot 3, per advisor", "said \"hold\"", "line one\nline two", "r\u{e9}\u{e9}quilibrage \u{2014} \u{65e5}\u{672c}"])).to_string();
             }
             all_rows.push((day, row));
+            // Shapes around a sale (the 30-day windows of a possible loss):
+            if let Some(seller) = sold_by {
+                let others: Vec<&str> = affs.iter().copied().filter(|x| *x != seller).collect();
+                let mk = |dd: Date, action: &str, qty: i64, price: i64, who: &str| -> (Date, Vec<String>) {
+                    let mut row = vec![String::new(); HEADER.len()];
+                    row[C_SEC] = sec.to_string();
+                    row[C_TRADE] = dd.to_string();
+                    row[C_SETTLE] = (dd + Duration::days(settle_off)).to_string();
+                    row[C_ACTION] = action.to_string();
+                    row[C_SHARES] = shares_str(qty);
+                    row[C_AMT] = cents_str(price);
+                    row[C_AFF] = who.to_string();
+                    (dd, row)
+                };
+                if !others.is_empty() && r.chance(1, 8) {
+                    // another affiliate opened and closed a fractional position shortly before the sale
+                    let b = *r.pick(&others);
+                    let q = r.range(1, 9) * 1000 + *r.pick(&[500i64, 250, 125]);
+                    let p = st[b].last_price.max(100);
+                    all_rows.push(mk(day - Duration::days(6), "Buy", q, p, b));
+                    all_rows.push(mk(day - Duration::days(5), "Sell", q, p, b));
+                }
+                if others.len() >= 2 && r.chance(1, 12) {
+                    // two other affiliates each sell a little more than they hold, within the 30 days after the sale
+                    let mut o = others.clone();
+                    r.shuffle(&mut o);
+                    for (i, b) in o.iter().take(2).enumerate() {
+                        let q = st[*b].shares + 1000 * r.range(1, 3);
+                        let p = st[*b].last_price.max(100);
+                        all_rows.push(mk(day + Duration::days(2 + i as i64), "Sell", q, p, b));
+                        st.get_mut(*b).unwrap().shares = 0;
+                    }
+                }
+            }
         }
     }
 
